@@ -24,6 +24,23 @@ type gnode struct {
 	order []string // sort order of the tags
 }
 
+// restrictExportable limits the generator to the vocabulary of the JSON spec format (specs/builder.go)
+var restrictExportable = false
+
+func filterExportable(xs []string) []string {
+	if !restrictExportable {
+		return xs
+	}
+	var out []string
+	for _, x := range xs {
+		if strings.Contains(x, "LLLLL") || strings.HasPrefix(x, "EBCDIC1047") || x == "Hex" && false {
+			continue
+		}
+		out = append(out, x)
+	}
+	return out
+}
+
 var textEncs = []string{"ASCII", "EBCDIC", "EBCDIC1047", "BCD", "LBCD", "Binary", "Hex"}
 var byteEncs = []string{"Binary", "Hex", "EBCDIC", "ASCII"}
 
@@ -61,17 +78,20 @@ func (n *gnode) primTerm() *Sx {
 
 // genPrim draws a primitive field spec; forceVar: self-delimiting without relying on a fixed length
 func genPrim(r *Rng, kinds []string) *gnode {
+	if restrictExportable {
+		kinds = []string{"String", "Numeric", "Binary"}
+	}
 	n := &gnode{kind: Pick(r, kinds)}
 	if n.kind == "Binary" || n.kind == "Hex" {
-		n.enc = Pick(r, byteEncs)
+		n.enc = Pick(r, filterExportable(byteEncs))
 	} else {
-		n.enc = Pick(r, textEncs)
+		n.enc = Pick(r, filterExportable(textEncs))
 	}
 	if r.Chance(1, 4) {
-		n.pref = Pick(r, prefFamilies) + ".Fixed"
+		n.pref = Pick(r, filterExportable(prefFamilies)) + ".Fixed"
 		n.fixed = true
 	} else {
-		n.pref = Pick(r, allVarPrefixers())
+		n.pref = Pick(r, filterExportable(allVarPrefixers()))
 	}
 	cap_ := prefCapacity(n.pref)
 	n.L = 1 + r.Intn(12)
@@ -195,6 +215,9 @@ var compVarPrefs = []string{"ASCII.LL", "ASCII.LLL", "ASCII.LLLL", "BCD.LLL", "B
 func genComp(r *Rng, depth int) *gnode {
 	n := &gnode{comp: true, subs: map[string]*gnode{}}
 	n.mode = Pick(r, []string{"pos", "tag", "ber", "bmp"})
+	if restrictExportable && n.mode == "ber" {
+		n.mode = "tag"
+	}
 	k := 1 + r.Intn(5)
 	sub := func() *gnode {
 		if depth < 2 && r.Chance(1, 4) {
@@ -202,7 +225,7 @@ func genComp(r *Rng, depth int) *gnode {
 		}
 		return genPrim(r, []string{"String", "Numeric", "Binary", "Hex"})
 	}
-	n.pref = Pick(r, compVarPrefs)
+	n.pref = Pick(r, filterExportable(compVarPrefs))
 	n.L = prefCapacity(n.pref)
 	if n.L > 9999 {
 		n.L = 9999
@@ -210,12 +233,12 @@ func genComp(r *Rng, depth int) *gnode {
 	if n.pref == "BerTLV" && r.Chance(1, 3) {
 		n.L = 0
 	}
-	skip := r.Chance(1, 3)
+	skip := r.Chance(1, 3) && !restrictExportable
 	var modeTerm *Sx
 	sortName := "ByInt"
 	switch n.mode {
 	case "pos":
-		if r.Chance(1, 4) {
+		if r.Chance(1, 4) && !restrictExportable {
 			sortName = "Strings"
 			for i := 0; i < k; i++ {
 				n.subs[string(rune('a'+i))] = sub()
@@ -229,6 +252,9 @@ func genComp(r *Rng, depth int) *gnode {
 	case "tag":
 		w := 2 + r.Intn(2)
 		tenc := Pick(r, []string{"ASCII", "EBCDIC", "BCD", "Binary", "HexToBytes"})
+		if restrictExportable && tenc == "Binary" {
+			tenc = "ASCII" // its tags sort with sort.Strings, which the JSON format cannot name
+		}
 		usePad := r.Bool() && tenc != "HexToBytes" && tenc != "Binary"
 		padK, padB := "N", byte(0)
 		if usePad {
@@ -280,7 +306,7 @@ func genComp(r *Rng, depth int) *gnode {
 				n.subs[key] = sub()
 			}
 		}
-		modeTerm = L(A("B"), I(Bn), Pick(r, []*Sx{A("Binary"), A("Hex")}), A(Pick(r, prefFamilies)+".Fixed"))
+		modeTerm = L(A("B"), I(Bn), Pick(r, []*Sx{A("Binary"), A("Hex")}), A(Pick(r, filterExportable(prefFamilies))+".Fixed"))
 	}
 	for t := range n.subs {
 		n.order = append(n.order, t)
@@ -340,14 +366,14 @@ func genMsg(r *Rng, deficient bool) *gmsg {
 		g.B = 8
 	}
 	bmEnc := Pick(r, []string{"Binary", "Hex"})
-	bmPref := Pick(r, prefFamilies) + ".Fixed"
-	mtiEnc := Pick(r, []string{"ASCII", "EBCDIC", "BCD", "EBCDIC1047", "LBCD"})
+	bmPref := Pick(r, filterExportable(prefFamilies)) + ".Fixed"
+	mtiEnc := Pick(r, filterExportable([]string{"ASCII", "EBCDIC", "BCD", "EBCDIC1047", "LBCD"}))
 	mtiKind := Pick(r, []string{"String", "Numeric"})
 	mtiPad := "N"
 	if mtiKind == "Numeric" {
 		mtiPad = "L"
 	}
-	mti := L(A("P"), A(mtiKind), A(mtiEnc), A(Pick(r, prefFamilies)+".Fixed"), I(4), A(mtiPad), X([]byte{'0'}), A("D"))
+	mti := L(A("P"), A(mtiKind), A(mtiEnc), A(Pick(r, filterExportable(prefFamilies))+".Fixed"), I(4), A(mtiPad), X([]byte{'0'}), A("D"))
 	maxID := 8 * g.B
 	if g.auto {
 		maxID = 8 * g.B * 3
